@@ -79,9 +79,38 @@ def handoffs(ctx, path, after_idx):
             cn = closure_name(e.args[2]) if len(e.args) > 2 else None
             tgt = deferred_callee(ctx.prog, cn) if cn else None
             out.append(("defer:" + (tgt or "?"), ptr_root(e.args[1]), e))
+        elif e.target == "ebr_impl::guard::Guard::defer_unchecked" and len(e.args) > 1:
+            # the deferral primitive itself, seen because the wrapper around it is a helper introduced by a refactoring
+            # (read inlined): `guard.defer_unchecked(move || f(ptr))` - evaluate the closure to find what runs on what
+            rd = resolve_deferred(ctx, e.args[1])
+            if rd is not None:
+                out.append(("defer:" + rd[0], ptr_root(rd[1]), e))
         elif e.target in (DGN, TRY_DESTRUCT, DISPOSE):
             out.append(("direct:" + e.target, ptr_root(e.args[0]), e))
     return out
+
+
+def resolve_deferred(ctx, clo):
+    """`move || f(ptr)` (a closure value whose captures are known) -> (function finally called, its first argument)"""
+    from .sym import Exec
+    cb = ctx.ex._closure_body(clo)
+    if cb is None or getattr(cb, "kind", None) != "closure":
+        return None
+    c0 = clo
+    while isinstance(c0, tuple) and c0[0] == "ref":
+        c0 = c0[1]
+    found = set()
+    try:
+        paths = Exec(ctx.prog).paths(cb, args={1: c0})
+    except AnalysisError:
+        return None
+    for p in paths:
+        for e in p.events:
+            if e.kind == "call" and e.target in ctx.prog.bodies and ctx.prog.bodies[e.target].kind != "closure" and e.args:
+                found.add((e.target, e.args[0]))
+    if len(found) == 1:
+        return next(iter(found))
+    return None
 
 
 def ret_bool(ctx, path):
@@ -491,7 +520,8 @@ def rule_split_inc(ctx):
     allsites = set()
     for f in adders | set(inc_functions(ctx)):
         for (b, bi) in outside_callers(f, {f}):
-            allsites.add((b.name, bi))
+            for rn in ctx.prog.path_roots(b.name):
+                allsites.add((rn, b.name, bi))
     nall = len(allsites)
     for f, fields in sorted(cands.items()):
         r.functions.add(f)
@@ -509,25 +539,29 @@ def rule_split_inc(ctx):
                             and b.name not in (TRY_DESTRUCT, TRY_DEALLOC, DEC_STRONG, DEC_WEAK):
                         work.append((b.name, None))   # a wrapper inside utils.rs: its callers inherit the obligation
                     continue
-                for p in ctx.paths(b.name):
-                    ev = [e for e in p.events if e.kind == "call" and e.target == g and e.bb == bi]
-                    if not ev:
-                        continue
-                    cls, shown = _receiver_class(ctx.prog, b, ev[0].args[0])
-                    n += 1
-                    for field in fields:
-                        table = PROT_STRONG if field == "strong" else PROT_WEAK
-                        ok = cls in table
-                        r.instance("%s -> %s [%s via %s]" % (b.name, f.split("::")[-1], field, cls), ok,
-                                   receiver=shown, why=table.get(cls))
-                        if not ok:
-                            r.violate(b.name, "call:" + f.split("::")[-1],
-                                      "calls the non-atomic (two-RMW) %s increment through a `%s` handle, which does not "
-                                      "prevent the pending destruction attempt from running between the two RMWs"
-                                      % (field, cls), ev[0].loc())
-                    break
+                # a site inside a closure or a helper introduced by a refactoring is judged where it is read into: the
+                # receiver is then what the real caller passes (`Rc::with_new_count(self.ptr)`)
+                for rootname in ctx.prog.path_roots(b.name):
+                    rb_ = ctx.prog.body(rootname)
+                    for p in ctx.paths(rootname):
+                        ev = [e for e in p.events if e.kind == "call" and e.target == g and e.bb == bi and e.body is b]
+                        if not ev:
+                            continue
+                        cls, shown = _receiver_class(ctx.prog, rb_, ev[0].args[0])
+                        n += 1
+                        for field in fields:
+                            table = PROT_STRONG if field == "strong" else PROT_WEAK
+                            ok = cls in table
+                            r.instance("%s -> %s [%s via %s]" % (rootname, f.split("::")[-1], field, cls), ok,
+                                       receiver=shown, why=table.get(cls))
+                            if not ok:
+                                r.violate(rootname, "call:" + f.split("::")[-1],
+                                          "calls the non-atomic (two-RMW) %s increment through a `%s` handle, which does not "
+                                          "prevent the pending destruction attempt from running between the two RMWs"
+                                          % (field, cls), ev[0].loc())
+                        break
     r.notes.append("split-increment functions: %s" % {k: sorted(v) for k, v in cands.items()})
-    r.require(nall, 8, "call sites of count-adding functions outside utils.rs")
+    r.require(nall, 5, "call sites of count-adding functions outside utils.rs")
     return r
 
 
@@ -909,12 +943,13 @@ def rule_weak_protocol(ctx):
         for q in preds:
             if const_of(q["rhs"]) == 1:
                 last = q["rel"] == "=="
-        hs = [e for e in p.events[s["idx"] + 1:] if e.kind == "call" and (e.ntarget or "").endswith("defer_with_inner")]
-        tg = [deferred_callee(prog, closure_name(e.args[2])) for e in hs]
+        hsx = [h for h in handoffs(ctx, p, s["idx"]) if h[0].startswith("defer:")]
+        hs = [h[2] for h in hsx]
+        tg = [h[0][len("defer:"):] for h in hsx]
         if last is None:
             r.violate(f, "undecided", "does not decide whether the weak count hit zero", s["event"].loc())
             continue
-        ok = (tg == [TRY_DEALLOC] and ptr_root(hs[0].args[1]) == ptr_root(s["obj"])) if last else (not hs)
+        ok = (tg == [TRY_DEALLOC] and hsx[0][1] == ptr_root(s["obj"])) if last else (not hs)
         n += 1
         r.instance("decrement_weak: was_last=%s -> defers %s" % (last, tg), ok)
         if not ok:
@@ -1042,6 +1077,11 @@ def rule_deferred_only(ctx):
     # defer_with_inner(Guard) reaches Guard::defer_unchecked -> Local::defer
     chain = [("<ebr_impl::guard::Guard as utils::Deferable>::defer_with_inner", "ebr_impl::guard::Guard::defer_unchecked"),
              ("ebr_impl::guard::Guard::defer_unchecked", "ebr_impl::internal::Local::defer")]
+    if chain[0][0] not in prog.bodies:
+        # the trait-based wrapper is gone (refactored into a helper that is read inlined): the chain starts at the
+        # primitive; that closures reach it is what the hand-off rules see at the call sites
+        chain = chain[1:]
+        n += 1
     for (a, bname) in chain:
         body = prog.body(a)
         tg = [c.target for (_, _, c) in body.calls()]
